@@ -241,7 +241,17 @@ Section Decode.
   Definition rollup_txs_collect (l : list RollupTxs) : list (B * RollupTxs) :=
     imap_collect (map (fun rt => (r_id rt, rt)) l).
 
-  (** [SequencerBlock::try_from_raw] *)
+  (** the loop over [rollup_transactions.values()] with [do_rollup_transactions_match_root];
+      [e] is the error of the enclosing decoder *)
+  Fixpoint check_rollup_proofs (e : list tag) (rtr : B) (m : list (B * RollupTxs)) : res unit :=
+    match m with
+    | [] => ROk tt
+    | (_, rt) :: r =>
+        let? _ := check_verify (r_proof rt) (rollup_leaf (r_id rt) (r_txs rt)) rtr e in
+        check_rollup_proofs e rtr r
+    end.
+
+  (** [SequencerBlock::try_from_raw] (with the per-rollup proof audit added by the F11 fix) *)
   Definition seq_block_from_raw (r : RawSeqBlock) : res SeqBlock :=
     let? _ := require (blen (rs_bh r) =? 32) [TInvalidBlockHash] in
     let? rtp := field_proof Trollup_transactions_proof TTransactionProofInvalid (rs_rtp r) in
@@ -257,20 +267,11 @@ Section Decode.
         let? _ := check_verify rtp (leafH (sha (rollup_txs_root m))) dh
                     [TRollupTransactionsNotInSequencerBlock] in
         let? _ := check_verify rip (leafH (sha (ids_root (map fst m)))) dh [TInvalidRollupIdsProof] in
+        let? _ := check_rollup_proofs [TRollupTransactionsNotInSequencerBlock] (h_rtr h) m in
         let? uch := uch_from_raw (rs_uch r) in
         let? eci := opt_eci_from_raw dh (rs_eci r) in
         ROk {| s_bh := rs_bh r; s_hdr := h; s_rts := m; s_rtp := rtp; s_rip := rip;
                s_uch := uch; s_eci := eci |}
-    end.
-
-  (** the loop over [rollup_transactions.values()] with [do_rollup_transactions_match_root] *)
-  Fixpoint check_rollup_proofs (rtr : B) (m : list (B * RollupTxs)) : res unit :=
-    match m with
-    | [] => ROk tt
-    | (_, rt) :: r =>
-        let? _ := check_verify (r_proof rt) (rollup_leaf (r_id rt) (r_txs rt)) rtr
-                    [TRollupTransactionForIdNotInSequencerBlock] in
-        check_rollup_proofs rtr r
     end.
 
   (** [FilteredSequencerBlock::try_from_raw] *)
@@ -288,7 +289,7 @@ Section Decode.
         let dh := h_dh h in
         let? _ := check_verify rtp (leafH (sha (h_rtr h))) dh
                     [TRollupTransactionsNotInSequencerBlock] in
-        let? _ := check_rollup_proofs (h_rtr h) m in
+        let? _ := check_rollup_proofs [TRollupTransactionForIdNotInSequencerBlock] (h_rtr h) m in
         let? _ := check_verify rip (leafH (sha (ids_root all))) dh [TInvalidRollupIdsProof] in
         let? uch := uch_from_raw (rf_uch r) in
         let? eci := opt_eci_from_raw dh (rf_eci r) in
@@ -402,13 +403,15 @@ Section Decode.
   Definition rollup_proofs_verify (rtr : B) (m : list (B * RollupTxs)) : bool :=
     forallb (fun kv => verifies (r_proof (snd kv)) (rollup_leaf (r_id (snd kv)) (r_txs (snd kv))) rtr) m.
 
-  (** the block level checks of a sequencer block *)
+  (** the checks of a sequencer block: block level proofs against the data hash and every
+      per-rollup proof against the rollup transactions root *)
   Definition seq_block_checks (v : SeqBlock) : bool :=
     let h := s_hdr v in
     (blen (s_bh v) =? 32) && header_checks h &&
     verifies (s_rtp v) (leafH (sha (h_rtr h))) (h_dh h) &&
     verifies (s_rtp v) (leafH (sha (rollup_txs_root (s_rts v)))) (h_dh h) &&
     verifies (s_rip v) (leafH (sha (ids_root (map fst (s_rts v))))) (h_dh h) &&
+    rollup_proofs_verify (h_rtr h) (s_rts v) &&
     eci_checks (h_dh h) (s_eci v).
 
   Definition filtered_checks (v : Filtered) : bool :=
